@@ -150,7 +150,7 @@ fn run_body(cfg: &RunCfg, ops: &[Op], base: &str) -> RunResult {
 			CURRENT_OP.store(i, Ordering::Relaxed);
 			ex.exec_op(i, op);
 			executed = i + 1;
-			if !ex.viol.is_empty() || !ex.has_db() {
+			if ex.should_stop() || !ex.has_db() {
 				break
 			}
 		}
